@@ -36,6 +36,9 @@ AllocEv(r) ==
 DeallocEv(r) ==
     /\ r.p \in DOMAIN heap                          \* live: not freed before, not foreign
     /\ heap[r.p] = Layout(r)                        \* released with the layout it was requested with
+    \* a boxed constructor that unwinds (its generator panicked) frees its block only after the elements it had built in
+    \* that block are dropped - they are all the operation owes, and they live nowhere else
+    /\ (~Idle /\ op.name \in {"generate", "default"} /\ op.okind = "box" /\ op.phase = "unwinding") => OpOwedEmpty
     /\ heap' = Restrict(heap, DOMAIN heap \ {r.p})
     /\ UNCHANGED <<life, pool, loose, owed, op, cfg, hx>>
 
